@@ -108,7 +108,7 @@ func (s *ClientSideCompositeSyncer) Sync(ctx context.Context, cm *claim.Unstruct
 	// based on the Update policy. If the policy is `Manual`, we need to remove
 	// CompositionRevisionRef from wellKnownClaimFields, so it is propagated
 	// from the claim to the XR.
-	if xr.GetCompositionUpdatePolicy() != nil && *xr.GetCompositionUpdatePolicy() == xpv1.UpdateManual {
+	if cm.GetCompositionUpdatePolicy() != nil && *cm.GetCompositionUpdatePolicy() == xpv1.UpdateManual {
 		delete(wellKnownClaimFields, xcrd.CompositionRevisionRef)
 	}
 
